@@ -91,3 +91,15 @@ def _mk_rkr(rnd):
     c = rnd.choice([EccCurve.SECP256R1, EccCurve.SECP384R1])
     r.root_certs = [PrivateKeyEcc.generate_key(c).get_public_key() for _ in range(n)]
     return r
+
+
+# ---- the IV that encrypts is the IV the image carries: every read of the property during one export sees the same 16 bytes ---------------------
+from spsdk.image.mbi.mbi_mixin import Mbi_MixinCtrInitVector  # noqa: E402
+
+
+@lemma("encrypt-step-and-iv-field-read-the-same-init-vector")
+def _(m: Obj(Mbi_MixinCtrInitVector, _ctr_init_vector=Optional[Bytes(16)], _CTR_INIT_VECTOR_SIZE=Const(16))):
+    # encrypt() reads the property for AES-CTR, post_encrypt() reads it again for the IV field in front of the encrypted data
+    let(used=m.ctr_init_vector)
+    let(stored=m.ctr_init_vector)
+    ensures(len(used) == 16 and stored == used, label="one-init-vector-per-image-however-often-it-is-read")
